@@ -732,6 +732,11 @@ fn stats_classes(st: &SimpleStats, classes: &mut BTreeSet<String>) {
     c(st.repeat_runs > 0, "enc:repeat-flag");
     c(st.repeat_spans_contours, "enc:repeat-spans-contours");
     c(st.repeat_count_zero > 0, "enc:repeat-count-0");
+    c(st.repeat_count_253 > 0, "enc:repeat-count-253");
+    c(st.repeat_count_254 > 0, "enc:repeat-count-254");
+    c(st.repeat_count_255 > 0, "enc:repeat-count-255");
+    c(st.split_after_full_run > 0, "enc:run-split-after-256");
+    c((100..253).contains(&st.repeat_count_max), "enc:repeat-count-100..252");
     c(st.short_positive > 0, "enc:short+");
     c(st.short_negative > 0, "enc:short-");
     c(st.short_zero > 0, "enc:short-zero");
@@ -943,6 +948,457 @@ fn sweep_item(i: u64, rec: &mut Rec) -> CaseResult {
     Ok(())
 }
 
+// ------------------------------------------------------------------------------------ field-width boundaries
+
+/// A stretch of points whose flag bytes come out identical under the compact coordinate form.
+#[derive(Clone, Debug)]
+pub struct Stretch {
+    pub len: usize,
+    pub on: bool,
+    /// 0 long deltas (alternating sign), 1 short positive, 2 short negative, 3 same-as-previous,
+    /// 4 mixed (no run intended)
+    pub style: u8,
+    pub seed: u32,
+}
+
+#[derive(Clone, Debug)]
+pub enum Cut {
+    /// contour boundary after a pseudo-random point
+    At(u32),
+    /// contour boundary such that endPtsOfContours is 256·k − 1 + offset (offset −2..=2)
+    Near256(u8, i8),
+}
+
+#[derive(Clone, Debug)]
+pub struct LongCase {
+    pub stretches: Vec<Stretch>,
+    pub cuts: Vec<Cut>,
+    pub instructions: usize,
+    pub overlap: bool,
+    pub transform: Transform,
+    pub offset: (i16, i16),
+    pub enc: Encoding,
+    pub layout: Layout,
+}
+
+fn stretch_points(st: &[Stretch]) -> Vec<Pt> {
+    let mut pts: Vec<Pt> = Vec::new();
+    let (mut x, mut y) = (0i32, 0i32);
+    for s in st {
+        for k in 0..s.len {
+            let h = crate::engine::util::mix64((s.seed as u64) << 20 ^ k as u64);
+            let (mut dx, mut dy): (i32, i32) = match s.style {
+                0 => {
+                    let a = 256 + (h % 1700) as i32;
+                    let b = 256 + ((h >> 20) % 1700) as i32;
+                    if k % 2 == 0 {
+                        (a, -b)
+                    } else {
+                        (-a, b)
+                    }
+                }
+                1 => (1 + (h % 20) as i32, 1 + ((h >> 20) % 20) as i32),
+                2 => (-1 - (h % 20) as i32, -1 - ((h >> 20) % 20) as i32),
+                3 => (0, 0),
+                _ => ((h % 601) as i32 - 300, ((h >> 20) % 601) as i32 - 300),
+            };
+            // safety net: stay far inside the int16 range whatever the stretches add up to
+            if (x + dx).abs() > 20000 {
+                dx = -dx;
+            }
+            if (y + dy).abs() > 20000 {
+                dy = -dy;
+            }
+            x += dx;
+            y += dy;
+            pts.push((x as i16, y as i16, s.on));
+        }
+    }
+    pts
+}
+
+fn cut_contours(pts: Vec<Pt>, cuts: &[usize]) -> Vec<Vec<Pt>> {
+    // cuts: indices of the last point of a contour (endPtsOfContours), any order, any duplicates
+    let n = pts.len();
+    let mut ends: Vec<usize> = cuts.iter().copied().filter(|e| *e + 1 < n).collect();
+    ends.sort();
+    ends.dedup();
+    let mut out = Vec::new();
+    let mut start = 0;
+    for e in ends {
+        out.push(pts[start..=e].to_vec());
+        start = e + 1;
+    }
+    if start < n {
+        out.push(pts[start..].to_vec());
+    }
+    out
+}
+
+fn stretch() -> impl Strategy<Value = Stretch> {
+    let len = prop_oneof![
+        4 => proptest::sample::select(vec![253usize, 254, 255, 256, 257, 258, 259, 511, 512, 513]),
+        3 => 250usize..=270,
+        2 => 510usize..=520,
+        3 => 1usize..=20,
+        2 => 20usize..=300,
+        1 => 300usize..=700,
+    ];
+    (len, any::<bool>(), prop_oneof![3 => Just(0u8), 3 => Just(1u8), 2 => Just(2u8), 2 => Just(3u8), 1 => Just(4u8)], any::<u32>())
+        .prop_map(|(len, on, style, seed)| Stretch { len, on, style, seed })
+}
+
+fn long_encoding() -> impl Strategy<Value = Encoding> {
+    // runs only exist under a uniform coordinate form; repeats biased to maximal runs
+    let coords = prop_oneof![5 => Just(Form::Compact), 3 => Just(Form::Long), 1 => Just(Form::Mixed)];
+    let repeats = prop_oneof![4 => Just(Form::Compact), 4 => Just(Form::Mixed), 1 => Just(Form::Long)];
+    (coords, repeats, form(), form(), any::<u64>()).prop_map(|(coords, repeats, args, transforms, seed)| Encoding {
+        coords,
+        repeats,
+        args,
+        transforms,
+        seed,
+    })
+}
+
+pub fn long_strategy() -> impl Strategy<Value = LongCase> {
+    let cut = prop_oneof![
+        2 => any::<u32>().prop_map(Cut::At),
+        3 => (1u8..=3, -2i8..=2).prop_map(|(k, o)| Cut::Near256(k, o)),
+    ];
+    (
+        proptest::collection::vec(stretch(), 1..=4),
+        proptest::collection::vec(cut, 0..=3),
+        prop_oneof![6 => 0usize..6, 2 => proptest::sample::select(vec![254usize, 255, 256, 257]), 1 => 200usize..600],
+        proptest::bool::weighted(0.2),
+        transform(),
+        (-300i16..=300, -300i16..=300),
+        long_encoding(),
+        layout(),
+    )
+        .prop_map(|(stretches, cuts, instructions, overlap, transform, offset, enc, layout)| LongCase {
+            stretches,
+            cuts,
+            instructions,
+            overlap,
+            transform,
+            offset,
+            enc,
+            layout,
+        })
+}
+
+fn long_glyphs(case: &LongCase) -> Vec<Glyph> {
+    let mut st = case.stretches.clone();
+    // cap the glyph at 900 points
+    let mut total = 0usize;
+    for s in st.iter_mut() {
+        s.len = s.len.min(900 - total.min(900)).max(if total == 0 { 1 } else { 0 });
+        total += s.len;
+    }
+    let pts = stretch_points(&st);
+    let n = pts.len();
+    let cuts: Vec<usize> = case
+        .cuts
+        .iter()
+        .map(|c| match c {
+            Cut::At(r) => pick(n.max(1), *r),
+            Cut::Near256(k, o) => (256 * *k as i64 - 1 + *o as i64).max(0) as usize,
+        })
+        .collect();
+    let simple = SimpleGlyph {
+        bbox: None,
+        contours: cut_contours(pts, &cuts),
+        instructions: (0..case.instructions).map(|i| (i * 7 + 1) as u8).collect(),
+        overlap_simple: case.overlap,
+    };
+    vec![
+        Glyph::Simple(simple),
+        Glyph::Composite(CompositeGlyph {
+            bbox: None,
+            components: vec![Component::new(0, case.offset.0, case.offset.1).with_transform(case.transform)],
+            instructions: None,
+        }),
+    ]
+}
+
+pub fn check_long(case: &LongCase, rec: &mut Rec) -> CaseResult {
+    let glyphs = long_glyphs(case);
+    check_glyphs(&glyphs, &case.enc, &case.layout, false, rec)?;
+    if let Glyph::Simple(s) = &glyphs[0] {
+        let n = s.num_points();
+        rec.class(if n >= 513 { "long:points>=513" } else if n >= 257 { "long:points 257..512" } else { "long:points<=256" });
+        let mut end = 0usize;
+        for c in &s.contours {
+            end += c.len();
+            if (254..=257).contains(&(end - 1)) || (510..=513).contains(&(end - 1)) {
+                rec.class("long:endPt-near-256k");
+                break;
+            }
+        }
+        rec.class_if((254..=257).contains(&s.instructions.len()), "long:instructions 254..257");
+    }
+    Ok(())
+}
+
+fn run_encodings(i: u64) -> Vec<Encoding> {
+    let e = |coords, repeats, seed| Encoding {
+        coords,
+        repeats,
+        args: Form::Mixed,
+        transforms: Form::Mixed,
+        seed,
+    };
+    vec![
+        e(Form::Compact, Form::Compact, i),
+        e(Form::Compact, Form::Mixed, i ^ 0x1111),
+        e(Form::Compact, Form::Mixed, i ^ 0x2222_0000),
+        e(Form::Long, Form::Compact, i),
+        e(Form::Long, Form::Mixed, i ^ 0x3333),
+        Encoding::mixed(i),
+    ]
+}
+
+const RUN_LENGTHS: [usize; 12] = [253, 254, 255, 256, 257, 258, 511, 512, 513, 767, 768, 769];
+const N_RUN_ITEMS: u64 = (RUN_LENGTHS.len() * 3 * 3 * 3) as u64;
+
+/// Deliberate runs of exactly L identical flags at the start / middle / end of the flag array,
+/// in one contour, with a contour boundary inside the run, or with endPtsOfContours = 255.
+fn run_item(i: u64) -> (String, Vec<Glyph>) {
+    let l = RUN_LENGTHS[(i % 12) as usize];
+    let pos = (i / 12) % 3;
+    let style = [0u8, 1, 3][((i / 36) % 3) as usize];
+    let split = (i / 108) % 3;
+    let edge = |seed: u32| -> Vec<Stretch> {
+        // five points whose flags differ from the run (off-curve, other delta class) and from
+        // each other often enough not to form a long run themselves
+        vec![
+            Stretch { len: 1, on: true, style: 4, seed },
+            Stretch { len: 2, on: false, style: 4, seed: seed + 1 },
+            Stretch { len: 1, on: true, style: 2, seed: seed + 2 },
+            Stretch { len: 1, on: false, style: if style == 1 { 2 } else { 1 }, seed: seed + 3 },
+        ]
+    };
+    let run = Stretch { len: l, on: true, style, seed: 77 + i as u32 };
+    let mut st: Vec<Stretch> = Vec::new();
+    let run_start;
+    match pos {
+        0 => {
+            run_start = 0;
+            st.push(run);
+            st.extend(edge(5));
+        }
+        1 => {
+            st.extend(edge(9));
+            run_start = 5;
+            st.push(run);
+            st.extend(edge(13));
+        }
+        _ => {
+            st.extend(edge(17));
+            run_start = 5;
+            st.push(run);
+        }
+    }
+    let pts = stretch_points(&st);
+    let cuts: Vec<usize> = match split {
+        0 => vec![],
+        1 => vec![run_start + 100],
+        _ => vec![255, 511],
+    };
+    let name = format!(
+        "run of {} identical flags ({}) at {} of the flag array, {}",
+        l,
+        ["long deltas", "short positive deltas", "", "same-as-previous"][style as usize],
+        ["start", "middle", "end"][pos as usize],
+        ["one contour", "contour boundary inside the run", "endPtsOfContours 255 / 511"][split as usize]
+    );
+    let simple = SimpleGlyph::from_contours(cut_contours(pts, &cuts));
+    (
+        name,
+        vec![
+            Glyph::Simple(simple),
+            Glyph::Composite(CompositeGlyph {
+                bbox: None,
+                components: vec![Component::new(0, -7, 9).with_transform(Transform::Matrix(0x2000, 0x1000, -0x0800, 0x3000))],
+                instructions: None,
+            }),
+        ],
+    )
+}
+
+/// Other packed fields at their width boundaries. Returns (description, glyphs, layout override).
+fn field_item(i: u64) -> Option<(String, Vec<Glyph>, Option<Layout>)> {
+    let tiny = |k: i16| Glyph::Simple(SimpleGlyph::from_contours(vec![vec![(k, 0, true), (k + 10, 5, false), (k, 20, true)]]));
+    let comp_of = |gid: u16| {
+        Glyph::Composite(CompositeGlyph {
+            bbox: None,
+            components: vec![Component::new(gid, 3, -4).with_transform(Transform::XY(0x2000, 0x6000))],
+            instructions: None,
+        })
+    };
+    let instr = |n: usize| -> Vec<u8> { (0..n).map(|k| (k % 251) as u8).collect() };
+    let mut idx = i;
+    // ---- deltas at ±254/±255/±256/±1/0 in both axes: all 81 pairs
+    if idx == 0 {
+        let b = [-256i32, -255, -254, -1, 0, 1, 254, 255, 256];
+        let (mut x, mut y) = (0i32, 0i32);
+        let mut pts: Vec<Pt> = Vec::new();
+        for (k, dx) in b.iter().enumerate() {
+            for (m, dy) in b.iter().enumerate() {
+                x += dx;
+                y += if k % 2 == 0 { *dy } else { b[8 - m] };
+                pts.push((x as i16, y as i16, (k + m) % 3 != 0));
+            }
+        }
+        return Some(("all 81 pairs of deltas from {0, ±1, ±254, ±255, ±256}".into(), vec![Glyph::Simple(SimpleGlyph::from_contours(vec![pts])), comp_of(0)], None));
+    }
+    idx -= 1;
+    // ---- extreme coordinates
+    if idx == 0 {
+        let pts: Vec<Pt> = vec![(0, 0, true), (32767, 32767, false), (0, 0, true), (-32768, -32768, false), (-1, -1, true), (32766, -32767, true)];
+        return Some(("coordinates at the int16 limits, deltas ±32767/−32768".into(), vec![Glyph::Simple(SimpleGlyph::from_contours(vec![pts])), comp_of(0)], None));
+    }
+    idx -= 1;
+    // ---- instruction lengths (simple / composite)
+    let ilens = [254usize, 255, 256, 257, 65535];
+    if (idx as usize) < ilens.len() * 2 {
+        let n = ilens[idx as usize / 2];
+        return Some(if idx % 2 == 0 {
+            let mut s = SimpleGlyph::from_contours(vec![vec![(0, 0, true), (50, 80, false), (100, 0, true)]]);
+            s.instructions = instr(n);
+            (format!("simple glyph with {} instruction bytes", n), vec![Glyph::Simple(s), comp_of(0)], None)
+        } else {
+            let c = CompositeGlyph {
+                bbox: None,
+                components: vec![Component::new(0, 1, 2), Component::new(0, -128, 127).with_transform(Transform::Scale(0x2000))],
+                instructions: Some(instr(n)),
+            };
+            (format!("composite glyph with {} instruction bytes", n), vec![tiny(0), Glyph::Composite(c), comp_of(1)], None)
+        });
+    }
+    idx -= (ilens.len() * 2) as u64;
+    // ---- many tiny contours (numberOfContours / endPtsOfContours across 127/128, 255/256)
+    let ncs = [100usize, 127, 128, 129, 255, 256, 257, 1000];
+    if (idx as usize) < ncs.len() * 2 {
+        let n = ncs[idx as usize / 2];
+        let per = 1 + (idx % 2) as usize; // one- or two-point contours
+        let contours: Vec<Vec<Pt>> = (0..n)
+            .map(|k| (0..per).map(|m| ((k % 300) as i16 * 3 + m as i16 * 2, (k / 300) as i16 * 5 + m as i16, (k + m) % 2 == 0)).collect())
+            .collect();
+        return Some((format!("{} contours of {} point(s)", n, per), vec![Glyph::Simple(SimpleGlyph::from_contours(contours)), comp_of(0)], None));
+    }
+    idx -= (ncs.len() * 2) as u64;
+    // ---- component arguments at the byte / word boundaries
+    if idx == 0 {
+        let offs: [(i16, i16); 10] = [(-128, 127), (127, -128), (-129, 0), (0, 128), (128, -129), (255, 256), (-256, -255), (32767, -32768), (-32768, 32767), (0, 0)];
+        let comps: Vec<Component> = offs.iter().map(|(x, y)| Component::new(0, *x, *y)).collect();
+        return Some((
+            "component offsets at −128/127/−129/128/±255/256/±32767/−32768".into(),
+            vec![tiny(0), Glyph::Composite(CompositeGlyph { bbox: None, components: comps, instructions: None })],
+            None,
+        ));
+    }
+    idx -= 1;
+    // ---- many components
+    let nks = [255usize, 256, 257];
+    if (idx as usize) < nks.len() {
+        let n = nks[idx as usize];
+        let comps: Vec<Component> = (0..n).map(|k| Component::new((k % 2) as u16, (k as i16) - 128, 127 - k as i16)).collect();
+        return Some((
+            format!("composite with {} components", n),
+            vec![tiny(0), tiny(40), Glyph::Composite(CompositeGlyph { bbox: None, components: comps, instructions: None })],
+            None,
+        ));
+    }
+    idx -= nks.len() as u64;
+    // ---- glyph ids at 255/256, 32767/32768, 65534 (fillers are empty glyphs)
+    let gids = [254usize, 255, 256, 257, 32766, 32767, 32768, 65533];
+    if (idx as usize) < gids.len() {
+        let g = gids[idx as usize];
+        let mut glyphs: Vec<Glyph> = vec![Glyph::Empty; g];
+        glyphs[0] = tiny(5);
+        glyphs.push(tiny(0)); // glyph id g
+        glyphs.push(Glyph::Composite(CompositeGlyph {
+            bbox: None,
+            components: vec![Component::new(g as u16, 1, 1), Component::new(0, 2, 2).with_transform(Transform::Scale(-0x4000))],
+            instructions: None,
+        })); // glyph id g + 1
+        return Some((format!("component refers to glyph id {} in a table of {} glyphs", g, g + 2), glyphs, Some(Layout::long())));
+    }
+    idx -= gids.len() as u64;
+    // ---- loca offsets at their width boundaries
+    let base = vec![tiny(0), Glyph::Empty, tiny(9), comp_of(2), comp_of(3)];
+    let locas: [(bool, usize); 9] = [
+        (false, 0xFFF0),  // short: offset/2 around 0x7FF8..
+        (false, 0xFFFE),  // offset/2 = 0x7FFF
+        (false, 0x10000), // offset/2 = 0x8000
+        (false, 0x1FF00), // near the top of the short format
+        (false, usize::MAX), // last offset exactly 0x1FFFE
+        (true, 0xFFFC),
+        (true, 0x10000),
+        (true, 0x1FFFC),
+        (true, 0x20000),
+    ];
+    if (idx as usize) < locas.len() {
+        let (long, leading) = locas[idx as usize];
+        let mut lay = if long { Layout::long() } else { Layout::short() };
+        // usize::MAX: resolved per encoding in `boundary_item` so that the last offset is 0x1FFFE
+        lay.leading = leading;
+        let at = if leading == usize::MAX { "such that the last offset is 0x1fffe".to_string() } else { format!("{:#x}", leading) };
+        return Some((format!("{} loca, first glyph at offset {}", if long { "long" } else { "short" }, at), base, Some(lay)));
+    }
+    None
+}
+
+const N_FIELD_ITEMS: u64 = 1 + 1 + 10 + 16 + 1 + 3 + 8 + 9;
+
+fn boundary_item(i: u64, rec: &mut Rec) -> CaseResult {
+    let (name, glyphs, layout) = if i < N_RUN_ITEMS {
+        let (n, g) = run_item(i);
+        (n, g, None)
+    } else {
+        field_item(i - N_RUN_ITEMS).expect("N_FIELD_ITEMS matches field_item")
+    };
+    let encs = if i < N_RUN_ITEMS {
+        run_encodings(i)
+    } else if glyphs.len() > 1000 {
+        vec![Encoding::compact(), Encoding::mixed(i)]
+    } else {
+        vec![Encoding::compact(), Encoding::long(), Encoding::mixed(i), Encoding::mixed(i ^ 0x5a5a5a)]
+    };
+    let mut classes: BTreeSet<String> = BTreeSet::new();
+    for (k, enc) in encs.iter().enumerate() {
+        let mut lay = layout.unwrap_or(if k % 2 == 0 { Layout::long() } else { Layout::short() });
+        if lay.leading == usize::MAX {
+            lay.leading = 0;
+            let recs = crate::fontgen::glyf::encode_records(&glyphs, enc).expect("encodable");
+            let (g, _) = build_glyf_loca(&recs, &lay).expect("small");
+            lay.leading = 0x1FFFE - g.len();
+        }
+        let mut sub = Rec::for_fuzz();
+        if let Err(mut f) = check_glyphs(&glyphs, enc, &lay, k % 2 == 1, &mut sub) {
+            rec.artefacts = sub.artefacts;
+            f.msg = format!("[{}; encoding {:?}] {}", name, enc, f.msg);
+            return Err(f);
+        }
+        for c in sub.classes {
+            if c.starts_with("enc:repeat-count-25") || c == "enc:run-split-after-256" || c == "enc:repeat-spans-contours" {
+                classes.insert(format!("boundary:{}", c));
+            }
+        }
+    }
+    for c in &classes {
+        rec.class(c);
+    }
+    rec.class(if i < N_RUN_ITEMS { "boundary:flag-run-item" } else { "boundary:field-item" });
+    rec.evaluations(2 * encs.len() as u64 - 1);
+    rec.set_nontrivial(true);
+    rec.hash_u64(i);
+    rec.sample(|| name.clone());
+    Ok(())
+}
+
 // ------------------------------------------------------------------------------------ fixtures
 
 fn be16(b: &[u8], at: usize) -> Option<u16> {
@@ -1074,6 +1530,8 @@ impl Property for C16 {
          fontgen::glyf encodes with per-item legal freedom (same/short±/long deltas, repeat runs incl. split runs and count 0, byte/word args, widened transforms, short/long loca, alignment 1/2/4, padding, leading gap). \
          allsorts parses LocaTable/GlyfTable and OutlineBuilder::visit feeds a recording sink for every glyph; each command list is compared with refmodel::glyf::outline_of(model) \
          (tolerance 1e-3 + 8e-6*magnitude for f32 arithmetic); depth > 6 and cycles must give Err. An exhaustive sweep covers all 510 on/off patterns of contours with 1-8 points in 4 encodings; \
+         section long-contours: glyphs of 250-900 points built from stretches of identical flags (lengths 253-259, 511-513, 250-270, 510-520, random) with contour ends near 256k-1 and 254-257 instruction bytes, encoder biased to maximal repeat runs (count bytes 253/254/255, split after 256); \
+         exhaustive packed-boundaries: runs of exactly 253..258/511..513/767..769 identical flags at start/middle/end of the flag array x 3 delta forms x 3 contour layouts x 6 encodings, plus deltas {0,+-1,+-254,+-255,+-256}^2, int16 coordinate limits, instruction lengths 254-257/65535, 100-1000 contours, component offsets at -128/127/-129/128/+-32767, 255-257 components, glyph ids 254-257/32766-32768/65533, short/long loca offsets around 0x7FFF/0x8000/0xFFFF; \
          all .ttf fixtures are compared glyph by glyph through my independent reader. Non-trivial = a compared glyph with an off-curve point or a composite; distinct by hash of the glyf+loca bytes."
             .to_string()
     }
@@ -1093,6 +1551,9 @@ impl Property for C16 {
         let n = ctx.cases(30_000, 300_000);
         ctx.section("chains", n, chain_strategy(), |c, rec| check_case(c, rec));
         ctx.enumerate("contour-sweep", 510, true, |i, rec| sweep_item(i, rec));
+        let n = ctx.cases(4_000, 150_000);
+        ctx.section("long-contours", n, long_strategy(), |c, rec| check_long(c, rec));
+        ctx.enumerate("packed-boundaries", N_RUN_ITEMS + N_FIELD_ITEMS, true, |i, rec| boundary_item(i, rec));
         let fonts = fixtures::list("fonts", &["ttf"], 700_000);
         let total = fonts.len() as u64;
         ctx.enumerate("fixtures", total, true, |i, rec| fixture_item(&fonts[i as usize], rec));
